@@ -129,6 +129,8 @@ pub mod k {
     pub const CLOSE_REASON_LEN: i128 = 96; // length of the reason phrase of the application close (default 3)
     pub const SPOOF_FRESH_AT: i128 = 97; // us: the first client datagram put on the wire at or after this instant reaches the server ONLY as a copy from the attacker's address (the original is lost): the server sees a fresh, highest-numbered packet from a foreign address once
     pub const SPOOF_FRESH_BLACKOUT: i128 = 98; // us: after that spoofed copy every client datagram is lost for this long
+    pub const DGRAM_SIZE2: i128 = 100; // size of the 'small' datagrams of DGRAM_ALT (default 100)
+    pub const PREFERRED_ADDR: i128 = 99; // 1: the server advertises a preferred address (its own), i.e. one more CID issued in the transport parameters
     pub const DGRAM_START: i128 = 81; // us: application datagrams are not sent before this instant
     pub const RECONNECT: i128 = 70; // open this many further client connections, one per drained connection (slot reuse)
 }
@@ -534,6 +536,9 @@ impl World {
         let mut scfg = ServerConfig::with_single_cert(vec![certd.clone()], keyd).unwrap();
         scfg.transport_config(Arc::new(w.transport(true)));
         scfg.migration(w.p.get(k::MIGRATION_ALLOWED, 1) != 0);
+        if w.p.get(k::PREFERRED_ADDR, 0) == 1 {
+            scfg.preferred_address_v4(Some(std::net::SocketAddrV4::new(Ipv4Addr::new(10, 0, 0, 2), 4433)));
+        }
         scfg.time_source(Arc::new(SimTime {
             base: std::time::UNIX_EPOCH + Duration::from_secs(1_700_000_000),
             now_us: w.now_shared.clone(),
@@ -1562,7 +1567,8 @@ impl World {
                     // DGRAM_ALT 1: odd ids are small; 2: the first half is a burst of large ones, the
                     // second half small and paced
                     let burst_phase = dgram_alt == 2 && id < dgram_total / 2;
-                    let this_size = if (dgram_alt == 1 && id % 2 == 1) || (dgram_alt == 2 && !burst_phase) { 100 } else { dsize.max(8) };
+                    let small = self.p.get(k::DGRAM_SIZE2, 100).max(8) as usize;
+                    let this_size = if (dgram_alt == 1 && id % 2 == 1) || (dgram_alt == 2 && !burst_phase) { small } else { dsize.max(8) };
                     let mut d = vec![0u8; this_size];
                     d[..8].copy_from_slice(&(id ^ (app.salt << 32)).to_be_bytes());
                     for i in 8..d.len() {
